@@ -150,11 +150,11 @@ func NewEnv(dir string) *Env {
 }
 
 // Count increments a counter (fault fired, probe hit, op executed...).
-func (e *Env) Count(name string) { e.Stats[name]++ }
+func (e *Env) Count(name string)        { e.Stats[name]++ }
 func (e *Env) Add(name string, n int64) { e.Stats[name] += n }
 
 // Step sets the current operation index (used in violation records).
-func (e *Env) Step(i int) { e.step = i }
+func (e *Env) Step(i int)   { e.step = i }
 func (e *Env) CurStep() int { return e.step }
 
 // Eff records that the current operation had an effect.
@@ -240,7 +240,7 @@ func SimsFor(prop string) []Sim {
 	}
 	return out
 }
-func SimByName(n string) Sim   { return sims[n] }
+func SimByName(n string) Sim { return sims[n] }
 func RegisteredProps() []string {
 	var out []string
 	for p := range propSim {
